@@ -103,7 +103,7 @@ class _Subst(ast.NodeTransformer):
 
 
 def _simple_arg(a):
-    return isinstance(a, (ast.Name, ast.Constant, ast.Attribute)) or (
+    return isinstance(a, (ast.Name, ast.Constant)) or (isinstance(a, ast.Attribute) and _simple_arg(a.value)) or (
         isinstance(a, ast.Subscript) and _simple_arg(a.value)) or (isinstance(a, ast.UnaryOp) and _simple_arg(a.operand))
 
 
@@ -242,15 +242,23 @@ def _elim_returns(stmts, result_name):
     return out, False
 
 
-def _stmt_helper(fn, drop_self):
-    """helper usable at statement level: returns only at the end of (nested) if branches, no yield"""
+def _stmt_helper(fn, drop_self, generator=False):
+    """helper usable at statement level: returns only at the end of (nested) if branches, no yield
+    (generator=True: a generator helper delegated to with `yield from helper(...)` as a whole statement - its body, yields included,
+    stands for the delegation when it returns no value)"""
     body = _strip_doc(fn.body)
     names, defaults = _params(fn, drop_self)
     if names is None:
         return None
     for n in _walk_own(fn):
-        if isinstance(n, (ast.Yield, ast.YieldFrom, ast.Await, ast.Global, ast.Nonlocal)):
+        if isinstance(n, (ast.Await, ast.Global, ast.Nonlocal)):
             return None
+        if isinstance(n, (ast.Yield, ast.YieldFrom)) and not generator:
+            return None
+        if generator and isinstance(n, ast.Return) and n.value is not None:
+            return None
+    if generator and not any(isinstance(n, (ast.Yield, ast.YieldFrom)) for n in _walk_own(fn)):
+        return None
     try:
         _elim_returns([clone(b) for b in body], "_r")
     except _NoInline:
@@ -532,9 +540,20 @@ class Normalizer:
             if self.propagated:
                 self._unroll_new_loops(node)      # a loop over a table that was held in a temporary
         _inline_new_module_constants(node, self.module, self.known)
+        n_ = len(self.inlined)
+        self._unroll_new_loops(node)              # a loop over a module-level dispatch table
+        if len(self.inlined) != n_:
+            _explicit_keywords(node)
         _expand_partials(node, snap)
+        for parent_ in ast.walk(node):
+            for child in ast.iter_child_nodes(parent_):
+                child._parent = parent_
+        _loops_to_comprehensions(node, self.known)
+        if _zip_to_known_enumerate(node, self.known) and snap is not None and not os.environ.get("TYVERIF_NO_LOCALS"):
+            rename_back(node, snap)
+        _unzip_literal_tables(node)
         _identity_comprehensions(node)
-        _split_tuple_assignments(node)
+        _split_tuple_assignments(node, snap if not os.environ.get("TYVERIF_NO_LOCALS") else None)
         if snap is not None and not os.environ.get("TYVERIF_NO_LOCALS"):
             coalesce_aliases(node, snap)
             for _ in range(2):
@@ -544,6 +563,7 @@ class Normalizer:
                 self.renamed.update(r_)
                 if not p_ and not r_:
                     break
+        _fuse_comprehensions(node)
         if not os.environ.get("TYVERIF_NO_IFEXP"):
             _distribute_calls_over_ifexp(node)
             _expand_ifexp_statements(node, self.known)
@@ -657,6 +677,22 @@ class Normalizer:
                     call = st.value
                 elif isinstance(st, (ast.Assign, ast.Return)) and isinstance(st.value, ast.Call):
                     call = st.value
+                # `yield from <new generator helper>(...)` as a whole statement
+                if isinstance(st, ast.Expr) and isinstance(st.value, ast.YieldFrom) and isinstance(st.value.value, ast.Call):
+                    h = self.helper_for(st.value.value, root)
+                    if h is not None:
+                        fn, drop = h
+                        sh = _stmt_helper(fn, drop, generator=True)
+                        if sh is not None:
+                            self.counter += 1
+                            pseudo = ast.copy_location(ast.Expr(value=st.value.value), st)
+                            new = _inline_stmt(pseudo, st.value.value, sh, self.counter)
+                            new = self._bind_receiver(new, fn, drop, st.value.value)
+                            if new is not None:
+                                self.inlined.append(fn.name)
+                                out.extend(new)
+                                changed = True
+                                continue
                 if call is not None:
                     h = self.helper_for(call, root)
                     if h is not None:
@@ -997,7 +1033,8 @@ def _try_propagate(fnode, blk, i, name):
                     and not (isinstance(n, ast.For) and any(id(x) == id(loads[0]) for x in ast.walk(n.iter))):
                 return False
     # nothing the value depends on changes between the definition and the last use
-    deps = {n.id for n in ast.walk(value) if isinstance(n, ast.Name)}
+    own = {n.id for c_ in ast.walk(value) if isinstance(c_, ast.comprehension) for n in ast.walk(c_.target) if isinstance(n, ast.Name)}
+    deps = {n.id for n in ast.walk(value) if isinstance(n, ast.Name)} - own      # a comprehension's loop variables are its own
     dep_attrs = {ast.unparse(n) for n in ast.walk(value) if isinstance(n, ast.Attribute)}
     last = max(k for k, s in enumerate(rest) if any(id(n) in {id(l) for l in loads} for n in ast.walk(s)))
     for s in rest[:last + 1]:
@@ -1084,7 +1121,7 @@ def _expand_ifexp_statements(fnode, known=()):
     fnode.body = rec(fnode.body)
 
 
-def _split_tuple_assignments(fnode):
+def _split_tuple_assignments(fnode, snapshot=None):
     """`a, b = x, y` with NEW-looking independent sides -> `a = x; b = y` (only when no target is read by any value)"""
     def rec(stmts):
         out = []
@@ -1118,9 +1155,195 @@ def _split_tuple_assignments(fnode):
                     for t, v in zip(st.targets[0].elts, st.value.elts):
                         out.append(ast.copy_location(ast.Assign(targets=[t], value=v), st))
                     continue
+            # a, b = obj.attr  for NEW locals a, b (a pair held in an attribute unpacked into temporaries) -> a = obj.attr[0]; b = obj.attr[1]
+            if snapshot is not None and isinstance(st, ast.Assign) and len(st.targets) == 1 and isinstance(st.targets[0], ast.Tuple) \
+                    and 2 <= len(st.targets[0].elts) <= 4 and all(isinstance(t, ast.Name) and t.id not in snapshot for t in st.targets[0].elts) \
+                    and isinstance(st.value, ast.Attribute) and isinstance(st.value.value, (ast.Name, ast.Attribute)) and _pure_expr(st.value):
+                for k_, t in enumerate(st.targets[0].elts):
+                    out.append(ast.copy_location(ast.Assign(targets=[t], value=ast.Subscript(value=clone(st.value), slice=ast.Constant(value=k_), ctx=ast.Load())), st))
+                continue
             out.append(st)
         return out
     fnode.body = rec(fnode.body)
+
+
+def _zip_to_known_enumerate(fnode, known):
+    """`for x, (a, b) in zip(A, B): body` where the snapshot has `for i, x0 in enumerate(A)`: the parallel walk is written back as that
+    index loop - `for i, x in enumerate(A)` with a -> B[i][0], b -> B[i][1] (parallel sequences of equal length: zip and indexing agree).
+    Only when B, ... are plain names that the loop does not re-bind and the unpacked names are not re-bound in the body."""
+    changed = False
+    for lp in ast.walk(fnode):
+        if not (isinstance(lp, ast.For) and isinstance(lp.iter, ast.Call) and isinstance(lp.iter.func, ast.Name) and lp.iter.func.id == "zip"
+                and not lp.iter.keywords and len(lp.iter.args) >= 2 and isinstance(lp.target, (ast.Tuple, ast.List)) and len(lp.target.elts) == len(lp.iter.args)):
+            continue
+        if "<for>:%s in %s" % (ast.unparse(lp.target), ast.unparse(lp.iter)) in known:
+            continue
+        first = lp.iter.args[0]
+        suffix = " in enumerate(%s)" % ast.unparse(first)
+        cands = [k for k in known if k.startswith("<for>:") and k.endswith(suffix)]
+        if len(cands) != 1:
+            continue
+        try:
+            ktarget = ast.parse(cands[0][len("<for>:"):-len(suffix)], mode="eval").body
+        except SyntaxError:
+            continue
+        if not (isinstance(ktarget, ast.Tuple) and len(ktarget.elts) == 2 and isinstance(ktarget.elts[0], ast.Name)):
+            continue
+        idx = ktarget.elts[0].id
+        if any(isinstance(n, ast.Name) and n.id == idx for n in ast.walk(fnode)):
+            continue        # the index name is in use
+        if not all(isinstance(a, ast.Name) for a in lp.iter.args[1:]):
+            continue
+        mapping = {}
+
+        def bind(t, expr):
+            if isinstance(t, ast.Name):
+                mapping[t.id] = expr
+                return True
+            if isinstance(t, (ast.Tuple, ast.List)) and not any(isinstance(e, ast.Starred) for e in t.elts):
+                return all(bind(e, ast.Subscript(value=clone(expr), slice=ast.Constant(value=k_), ctx=ast.Load())) for k_, e in enumerate(t.elts))
+            return False
+        ok = True
+        for t, a in zip(lp.target.elts[1:], lp.iter.args[1:]):
+            ok = ok and bind(t, ast.Subscript(value=clone(a), slice=ast.Name(id=idx, ctx=ast.Load()), ctx=ast.Load()))
+        if not ok:
+            continue
+        body_mod = ast.Module(body=lp.body, type_ignores=[])
+        stored = {n.id for n in ast.walk(body_mod) if isinstance(n, ast.Name) and isinstance(n.ctx, (ast.Store, ast.Del))}
+        if stored & (set(mapping) | {a.id for a in lp.iter.args[1:]}):
+            continue
+        later = [n for s_ in _stmts_after(fnode, lp) for n in ast.walk(s_) if isinstance(n, ast.Name) and isinstance(n.ctx, ast.Load) and n.id in mapping]
+        if later:
+            continue
+        lp.body = [_Subst(mapping).visit(b) for b in lp.body]
+        lp.target = ast.Tuple(elts=[ast.Name(id=idx, ctx=ast.Store()), lp.target.elts[0]], ctx=ast.Store())
+        lp.iter = ast.Call(func=ast.Name(id="enumerate", ctx=ast.Load()), args=[first], keywords=[])
+        ast.fix_missing_locations(lp)
+        changed = True
+    return changed
+
+
+def _loops_to_comprehensions(fnode, known):
+    """X = []; for t in S: X.append(E)   /   ... if c: X.append(E)   ->   X = [E for t in S if c]  for loops that are not in the snapshot
+    (the loop variables must not be read after the loop: a comprehension does not leak them)"""
+    def names(e):
+        return {n.id for n in ast.walk(e) if isinstance(n, ast.Name)}
+    changed = False
+    for owner in ast.walk(fnode):
+        for fld in ("body", "orelse", "finalbody"):
+            blk = getattr(owner, fld, None)
+            if not (isinstance(blk, list) and blk and isinstance(blk[0], ast.stmt)):
+                continue
+            i = 0
+            while i + 1 < len(blk):
+                a, lp = blk[i], blk[i + 1]
+                i += 1
+                if not (isinstance(a, ast.Assign) and len(a.targets) == 1 and isinstance(a.targets[0], ast.Name)
+                        and ((isinstance(a.value, ast.List) and not a.value.elts) or
+                             (isinstance(a.value, ast.Call) and isinstance(a.value.func, ast.Name) and a.value.func.id == "list" and not a.value.args and not a.value.keywords))):
+                    continue
+                if not (isinstance(lp, ast.For) and not lp.orelse and len(lp.body) == 1):
+                    continue
+                if "<for>:%s in %s" % (ast.unparse(lp.target), ast.unparse(lp.iter)) in known:
+                    continue
+                acc = a.targets[0].id
+                inner = lp.body[0]
+                conds = []
+                while isinstance(inner, ast.If) and not inner.orelse and len(inner.body) == 1:
+                    conds.append(inner.test)
+                    inner = inner.body[0]
+                if not (isinstance(inner, ast.Expr) and isinstance(inner.value, ast.Call) and isinstance(inner.value.func, ast.Attribute)
+                        and inner.value.func.attr == "append" and isinstance(inner.value.func.value, ast.Name) and inner.value.func.value.id == acc
+                        and len(inner.value.args) == 1 and not inner.value.keywords):
+                    continue
+                elt = inner.value.args[0]
+                used = names(elt) | names(lp.iter)
+                for c_ in conds:
+                    used |= names(c_)
+                if acc in used:
+                    continue
+                if any(isinstance(n, (ast.Yield, ast.YieldFrom, ast.Await, ast.NamedExpr)) for n in ast.walk(lp)):
+                    continue
+                tnames = names(lp.target)
+                after = [n for s_ in _stmts_after(fnode, lp) for n in ast.walk(s_) if isinstance(n, ast.Name) and isinstance(n.ctx, ast.Load) and n.id in tnames]
+                # a later loop may re-bind the same variable before reading it: only a read that is not preceded by a new binding matters;
+                # conservatively, any later load of the name outside a statement that binds it again blocks the rewrite
+                if after and not all(_rebound_before(fnode, lp, n) for n in after):
+                    continue
+                comp = ast.ListComp(elt=elt, generators=[ast.comprehension(target=lp.target, iter=lp.iter, ifs=list(conds), is_async=0)])
+                new = ast.copy_location(ast.Assign(targets=[a.targets[0]], value=ast.copy_location(comp, lp)), lp)
+                blk[i - 1:i + 1] = [new]
+                ast.fix_missing_locations(new)
+                changed = True
+    return changed
+
+
+def _stmts_after(fnode, st):
+    """statements of the function that come after `st` in source order (document order of the tree)"""
+    seen = False
+    out = []
+    order = []
+
+    def rec(stmts):
+        for s_ in stmts:
+            order.append(s_)
+            for fld in ("body", "orelse", "finalbody"):
+                sub = getattr(s_, fld, None)
+                if isinstance(sub, list) and sub and isinstance(sub[0], ast.stmt) and not isinstance(s_, (ast.FunctionDef, ast.AsyncFunctionDef, ast.ClassDef)):
+                    rec(sub)
+            if isinstance(s_, ast.Try):
+                for h in s_.handlers:
+                    rec(h.body)
+    rec(fnode.body)
+    inside = {id(x) for x in ast.walk(st)}
+    for s_ in order:
+        if s_ is st:
+            seen = True
+            continue
+        if seen and id(s_) not in inside and not any(id(s_) == id(x) for x in ast.walk(st)):
+            # only top-most statements: skip those nested in an already listed one
+            if not any(any(id(s_) == id(y) for y in ast.walk(o) if y is not o) for o in out):
+                out.append(s_)
+    return out
+
+
+def _rebound_before(fnode, lp, load):
+    """the load of a former loop variable sits in a later `for` / comprehension that binds the name itself"""
+    p = getattr(load, "_parent", None)
+    cur = load
+    while p is not None and p is not fnode:
+        if isinstance(p, ast.For) and any(isinstance(n, ast.Name) and n.id == load.id for n in ast.walk(p.target)) and not any(cur is x for x in ast.walk(p.iter)):
+            return True
+        if isinstance(p, (ast.ListComp, ast.SetComp, ast.DictComp, ast.GeneratorExp)):
+            for k_, g in enumerate(p.generators):
+                if any(isinstance(n, ast.Name) and n.id == load.id for n in ast.walk(g.target)) and not (k_ == 0 and any(cur is x for x in ast.walk(g.iter))):
+                    return True
+        cur, p = p, getattr(p, "_parent", None)
+    return False
+
+
+def _unzip_literal_tables(fnode):
+    """a, b, c = (F(col) for col in zip(*[(a1, b1, c1), (a2, b2, c2), ...]))  ->  a, b, c = (F((a1, a2, ..)), F((b1, b2, ..)), F((c1, c2, ..))):
+    a table written row by row and unzipped into its columns is the same columns written out"""
+    for st in ast.walk(fnode):
+        if not (isinstance(st, ast.Assign) and len(st.targets) == 1 and isinstance(st.targets[0], (ast.Tuple, ast.List))
+                and isinstance(st.value, (ast.GeneratorExp, ast.ListComp)) and len(st.value.generators) == 1 and not st.value.generators[0].ifs
+                and isinstance(st.value.generators[0].target, ast.Name)):
+            continue
+        g = st.value.generators[0]
+        n = len(st.targets[0].elts)
+        cols = None
+        it = g.iter
+        if isinstance(it, ast.Call) and isinstance(it.func, ast.Name) and it.func.id == "zip" and len(it.args) == 1 and isinstance(it.args[0], ast.Starred) \
+                and isinstance(it.args[0].value, (ast.List, ast.Tuple)) and not it.keywords:
+            rows = it.args[0].value.elts
+            if rows and all(isinstance(r, (ast.Tuple, ast.List)) and len(r.elts) == n and all(_literal_tree(x) for x in r.elts) for r in rows):
+                cols = [ast.Tuple(elts=[clone(r.elts[k]) for r in rows], ctx=ast.Load()) for k in range(n)]
+        elif isinstance(it, (ast.Tuple, ast.List)) and len(it.elts) == n and all(_literal_tree(x) for x in it.elts):
+            cols = [clone(x) for x in it.elts]
+        if cols is None or not _pure_expr(st.value.elt):
+            continue
+        st.value = ast.copy_location(ast.Tuple(elts=[_Subst({g.target.id: c}).visit(clone(st.value.elt)) for c in cols], ctx=ast.Load()), st.value)
 
 
 def _identity_comprehensions(fnode):
@@ -1154,6 +1377,42 @@ def _identity_comprehensions(fnode):
                 st.value = ast.copy_location(ast.Tuple(elts=elts, ctx=ast.Load()), v)
             return st
     R().visit(fnode)
+
+
+def _fuse_comprehensions(fnode):
+    """`G(a, b) for a, b in ((E1(t), E2(t)) for t in S if c)` -> `G(E1(t), E2(t)) for t in S if c` when the inner generator has one
+    clause, its elements are pure and the outer targets bind structurally; a generator held in a new temporary arrives here
+    after propagation"""
+    changed = False
+    for comp in ast.walk(fnode):
+        if not isinstance(comp, (ast.GeneratorExp, ast.ListComp, ast.SetComp, ast.DictComp)) or len(comp.generators) != 1:
+            continue
+        g = comp.generators[0]
+        inner = g.iter
+        if not isinstance(inner, (ast.GeneratorExp, ast.ListComp)) or len(inner.generators) != 1 or g.is_async or inner.generators[0].is_async:
+            continue
+        if not _pure_expr(inner.elt):
+            continue
+        mapping = {}
+        if not _bind_target(g.target, inner.elt, mapping):
+            continue
+        ig = inner.generators[0]
+        inner_names = {n.id for n in ast.walk(ig.target) if isinstance(n, ast.Name)}
+        outer_used = {n.id for part in ([comp.key, comp.value] if isinstance(comp, ast.DictComp) else [comp.elt]) + list(g.ifs)
+                      for n in ast.walk(part) if isinstance(n, ast.Name)}
+        if inner_names & (outer_used - set(mapping)):
+            continue          # the inner loop variable would capture a name of the outer element
+        sub = _Subst(mapping)
+        if isinstance(comp, ast.DictComp):
+            comp.key = sub.visit(comp.key)
+            comp.value = sub.visit(comp.value)
+        else:
+            comp.elt = sub.visit(comp.elt)
+        g.ifs = [clone(i) for i in ig.ifs] + [sub.visit(i) for i in g.ifs]
+        g.target = clone(ig.target)
+        g.iter = clone(ig.iter)
+        changed = True
+    return changed
 
 
 def _expand_partials(fnode, snapshot):
@@ -1238,6 +1497,37 @@ def coalesce_aliases(fnode, snapshot):
                 break
 
 
+def _literal_tree(e):
+    if isinstance(e, ast.Constant):
+        return True
+    if isinstance(e, ast.UnaryOp) and isinstance(e.operand, ast.Constant):
+        return True
+    if isinstance(e, (ast.Tuple, ast.List)):
+        return all(_literal_tree(x) for x in e.elts)
+    if isinstance(e, ast.Dict):
+        return all(k is not None and _literal_tree(k) for k in e.keys) and all(_literal_tree(x) for x in e.values)
+    return False
+
+
+def _literal_row(e):
+    """a row of a dispatch table: a tuple of literals, literal tuples and literal dicts"""
+    return isinstance(e, ast.Tuple) and all(_literal_tree(x) for x in e.elts)
+
+
+def _explicit_keywords(fnode):
+    """f(**{"k": v}) -> f(k=v)"""
+    for c in ast.walk(fnode):
+        if isinstance(c, ast.Call):
+            new = []
+            for kw in c.keywords:
+                if kw.arg is None and isinstance(kw.value, ast.Dict) and kw.value.keys and all(
+                        isinstance(k, ast.Constant) and isinstance(k.value, str) and k.value.isidentifier() for k in kw.value.keys):
+                    new.extend(ast.keyword(arg=k.value, value=v) for k, v in zip(kw.value.keys, kw.value.values))
+                else:
+                    new.append(kw)
+            c.keywords = new
+
+
 def _inline_new_module_constants(fnode, module, known):
     """a module-level NAME = <constant-like value> that is not in the snapshot (a literal hoisted into a named constant) is
     written out where it is used"""
@@ -1247,7 +1537,7 @@ def _inline_new_module_constants(fnode, module, known):
             v = st.value
             ok = isinstance(v, ast.Constant) or (isinstance(v, ast.Call) and isinstance(v.func, ast.Name) and v.func.id in ("slice", "frozenset", "tuple")
                                                and all(isinstance(a, (ast.Constant, ast.UnaryOp)) for a in v.args) and not v.keywords) \
-                or (isinstance(v, (ast.Tuple, ast.List)) and all(isinstance(e, (ast.Constant, ast.Tuple)) for e in v.elts)) \
+                or (isinstance(v, (ast.Tuple, ast.List)) and all(isinstance(e, (ast.Constant, ast.Tuple)) or _literal_row(e) for e in v.elts)) \
                 or (isinstance(v, ast.UnaryOp) and isinstance(v.operand, ast.Constant))
             if ok:
                 consts[st.targets[0].id] = v
